@@ -1,4 +1,5 @@
 """C17 - port semantics: explicit vs default, zero vs absent."""
+import enum
 import itertools
 
 from hypothesis import strategies as st
@@ -21,6 +22,7 @@ UIS = ["", "u@", "u:p@", ":p@"]
 VALID_PORTS = [0, 1, 20, 21, 22, 79, 80, 81, 442, 443, 444, 8080, 65534, 65535]
 INVALID_TEXT = ["65536", "70000", "-1", "1000000000000", "8a", "x", "0x50", "1.5", "1e3", "80:80", "８０a"]
 INVALID_OBJ = [65536, 70000, -1, 10 ** 12, True, False, "80", 80.0, 1.5, [80]]
+SUBCLASS_PORTS = ["@myint:0", "@myint:80", "@myint:8080", "@myint:65535", "@myint:65536", "@myint:-1", "@intenum:0", "@intenum:80", "@intenum:443", "@intenum:8080", "@intenum:65535", "@intenum:65536"]
 NEAR = {0, 20, 21, 22, 79, 80, 81, 442, 443, 444, 65535}
 
 
@@ -28,7 +30,36 @@ def _exp_hps(hps_host, p, scheme):
     return hps_host if p is None or p == D.get(scheme) else "%s:%d" % (hps_host, p)
 
 
+class MyInt(int):
+    pass
+
+
+class PortEnum(enum.IntEnum):
+    ZERO = 0
+    HTTP = 80
+    HTTPS = 443
+    ALT = 8080
+    MAX = 65535
+    TOO_BIG = 65536
+
+
+def _port_object(port):
+    """'@myint:8080' / '@intenum:443' stand for instances of int subclasses (documented type: int)"""
+    if isinstance(port, str) and port.startswith("@"):
+        kind, _, v = port[1:].partition(":")
+        return MyInt(int(v)) if kind == "myint" else PortEnum(int(v))
+    return port
+
+
 def check_port(ctx, backend, route, scheme, port, host, ui):
+    if route in ("build", "with_port", "with_port-nodefault", "build-enc"):
+        port = _port_object(port)
+        if type(port) is not int and isinstance(port, int) and not isinstance(port, bool):
+            port_sub, port = port, int(port)
+        else:
+            port_sub = None
+    else:
+        port_sub = None
     Y = ctx.yarl(backend)
     URL = Y.URL
     htext, hraw, hps = HOSTS[host]
@@ -49,7 +80,7 @@ def check_port(ctx, backend, route, scheme, port, host, ui):
         p = port
         kw = {"scheme": scheme_in, "host": htext, "path": "/p", "encoded": True}
         if port is not None:
-            kw["port"] = port
+            kw["port"] = port if port_sub is None else port_sub
         u = URL.build(**kw)
         ctx.case(p in NEAR or host >= 3, label=route)
         d_in = D.get(scheme_in)  # encoded=True keeps the scheme as given: the default port is the one of the stored spelling
@@ -104,7 +135,7 @@ def check_port(ctx, backend, route, scheme, port, host, ui):
         p = port if valid else None
         kw = {"scheme": scheme_in, "host": hraw, "path": "/p"}
         if port is not None:
-            kw["port"] = port
+            kw["port"] = port if port_sub is None else port_sub
         if ui:
             u_, _, pw = ui[:-1].partition(":")
             if u_:
@@ -138,12 +169,12 @@ def check_port(ctx, backend, route, scheme, port, host, ui):
         p = port if valid else None
         base = URL("%s//%s%s/p" % (scheme + ":" if scheme else "", ui, htext))
         base.port, base.authority, base.explicit_port, base.is_default_port(), base.host_port_subcomponent
-        make = lambda: base.with_port(port)  # noqa: E731
+        make = lambda: base.with_port(port if port_sub is None else port_sub)  # noqa: E731
     elif route == "with_port":
         valid = port is None or (type(port) is int and 0 <= port <= 65535)
         p = port if valid else None
         base = URL("%s//%s%s:8042/p" % (scheme + ":" if scheme else "", ui, htext))
-        make = lambda: base.with_port(port)  # noqa: E731
+        make = lambda: base.with_port(port if port_sub is None else port_sub)  # noqa: E731
     else:
         raise AssertionError(route)
     nontrivial = (not valid) or (p in NEAR) or host >= 3 or bool(ui)
@@ -213,7 +244,7 @@ CHECKS = {"port": check_port, "relative": check_relative}
 
 def matrix(ctx, backend):
     text_ports = [None, ""] + [str(p) for p in VALID_PORTS] + ["080", "0080", "00", "0000065535", "000"] + INVALID_TEXT
-    obj_ports = [None] + VALID_PORTS + INVALID_OBJ
+    obj_ports = [None] + VALID_PORTS + INVALID_OBJ + SUBCLASS_PORTS
     for scheme, host, ui in itertools.product(SCHEMES, range(len(HOSTS)), UIS):
         for port in text_ports:
             ctx.run("port", backend=backend, route="ctor", scheme=scheme, port=port, host=host, ui=ui)
